@@ -52,7 +52,9 @@ FLOATS = [0.1234567891, -2.5, 1e-7, 1e16, 1.0 / 3.0, 123456.789012345, -0.000001
           7e40, 1e20, -3e30, 1.5e100]
 NONNUM = ["A", "TS_01/3.mrc", "1a", "x-1.5e3", "00012_4.2A", "B", "tomo_12.rec", "1e", "--1", "1.2.3", "opticsGroup1", "e5",
           # quotes and separators of other table formats are ordinary characters of a STAR token
-          'grid_3.5"_sq7', "it's", "a,b;c", "x|y"]
+          'grid_3.5"_sq7', "it's", "a,b;c", "x|y",
+          # text outside ASCII (sample and grid names): written and read in the same encoding
+          "M\u00fcller_grid1", "Chlamy_5\u00b5m", "\u00c5_2.6"]
 NUMLIKE = ["12", "-3.5", "1e3", "007", "4.50", "+2"]
 LABELS = ["rlnCoordinateX", "rlnMicrographName", "score", "x_shift", "halfset", "rlnOpticsGroup", "A", "col.2",
           "rlnCtfFigureOfMerit", "the", "class", "motl_idx", "rlnAngleRot", "b-1", "X"]
